@@ -71,6 +71,8 @@ class Evaluator:
             b = self.ev(t[1])
             name = t[2]
             if isinstance(b, dict):
+                if str(name) not in b and name not in b:
+                    raise NoModel("field %s of %r" % (name, sorted(b)))
                 return b[str(name)] if str(name) in b else b[name]
             if isinstance(b, (list, tuple)):
                 return b[int(name)]
